@@ -449,6 +449,11 @@ class BaseEMSurvey(ObjectBase, ABC):  # pylint: disable=too-many-public-methods
                 dependent._metadata = values
                 self.workspace.update_attribute(dependent, "metadata")
 
+                # The partner resolves its own links again from the shared metadata
+                for name in TYPE_MAP.values():
+                    if getattr(dependent, f"_{name}", None) is not None:
+                        setattr(dependent, f"_{name}", None)
+
     @property
     def receivers(self) -> BaseEMSurvey | None:
         """
